@@ -70,6 +70,7 @@ ExportInv == Export => PrintT(ToJson(
    [x |-> x, b |-> b,
     min |-> Out(MinOK(x, b, FALSE)), minx |-> Out(MinOK(x, b, TRUE)),
     max |-> Out(MaxOK(x, b, FALSE)), maxx |-> Out(MaxOK(x, b, TRUE)),
+    maxp |-> Out(MaxPairOK(x, b)), minp |-> Out(MinPairOK(x, b)),
     mult |-> IF ~Pos(b) THEN "n/a" ELSE IF ~CanDivide(x, b) THEN "undecided"
              ELSE IF ~ExactMultDomain(x, b) THEN "any" ELSE Out(MultOK(x, b))]))
 =============================================================================
